@@ -20,6 +20,9 @@
 //	seq  (plain build)  random sequential histories; the oracle is evaluated after every operation
 //	conc (race build)   workers with disjoint mountpoints race Mount/Check/Unmount against re-Init;
 //	                    per-mountpoint histories are judged afterwards; race reports in fusemanager. count
+//	ovl  (plain build)  imposed overlaps on ONE mountpoint: a Mount request is held inside the
+//	                    filesystem's Mount while other requests for the same mountpoint run, then
+//	                    made to fail or succeed; judged at the quiescent point that follows
 //
 // See NOTES.md for the oracle, its slack, the findings and the mutation table.
 package main
@@ -44,9 +47,9 @@ import (
 
 const ruleText = "seq: each case is a random history of 8-28 operations (Init with a fresh configuration and optional injected bad JSON / config-function / " +
 	"filesystem-construction / restoration failures and, half of the time, the byte-identical Init again with the fault cleared or kept, Mount, Check, Unmount with injected filesystem failures, manager death with the store kept, Close) over 2-5 mountpoints, " +
-	"direct or through gRPC; conc: 2-4 workers with disjoint mountpoints race 8-16 requests each against 2-4 re-Inits (optionally after a manager restart with a populated store). " +
+	"direct or through gRPC; conc: 2-4 workers with disjoint mountpoints race 8-16 requests each against 2-4 re-Inits (optionally after a manager restart with a populated store); ovl: 1-3 rounds in which a Mount is held inside the filesystem while 1-2 other requests for the same mountpoint are issued, then fails or succeeds. " +
 	"non-trivial = the history contained (a) a Check/Unmount delivered to an instance of an older generation after a re-Init, or (b) a restoration mount during the first Init after a " +
-	"manager restart, or (c) a request issued after a failed Init, or (d) a byte-identical Init repeated after a failed one, or (conc) a request that overlapped an Init in time; distinct by the operation script"
+	"manager restart, or (c) a request issued after a failed Init, or (d) a byte-identical Init repeated after a failed one, or (conc) a request that overlapped an Init in time, or (ovl) a request returned while the held Mount of the same mountpoint was still inside the filesystem; distinct by the operation script"
 
 func main() {
 	vf.Main("C17", "exploration", ruleText, 60, 1200, body)
@@ -65,7 +68,7 @@ func body(r *vf.Run) {
 	switch r.Child {
 	case "":
 		top(r)
-	case "seq", "conc":
+	case "seq", "conc", "ovl":
 		child(r)
 	default:
 		r.Inconclusive("unknown stage " + r.Child)
@@ -83,6 +86,9 @@ func top(r *vf.Run) {
 	t = time.Now()
 	runParallel(r, "conc", nConc, 4, r.N(30, 250), true)
 	r.Set("stage_conc_seconds", time.Since(t).Seconds())
+	t = time.Now()
+	runParallel(r, "ovl", r.N(80, 1200), r.N(4, 8), r.N(20, 150), false)
+	r.Set("stage_ovl_seconds", time.Since(t).Seconds())
 	r.Assume("the recording filesystem substituted through fusemanager.VerifSetWrapFS stands for the real stargz filesystem: Mount/Unmount succeed unless made to fail, a failed call changes nothing, Check/Unmount of a mountpoint the instance did not mount fail")
 	r.Assume("a manager process that dies is modelled by VerifCloseStoreKeepFile + a new fusemanager.Server on the same store path; the mounts of the dead process are gone with it")
 	r.Assume("bbolt persists what Update committed; the store is read through the server's own handle (VerifStoreRecords)")
@@ -179,6 +185,9 @@ func caseDescriptor(r *vf.Run, stage string, idx int) string {
 	if stage == "seq" {
 		return genSeqCase(r.RNG(1, uint64(idx)), idx, r.N(6, 10)).desc()
 	}
+	if stage == "ovl" {
+		return genOvlCase(r.RNG(3, uint64(idx)), idx).desc()
+	}
 	return genConcCase(r.RNG(2, uint64(idx)), idx).desc()
 }
 
@@ -274,6 +283,8 @@ func child(r *vf.Run) {
 		dir := filepath.Join(r.Scratch, fmt.Sprintf("c%06d", i))
 		if r.Child == "seq" {
 			runSeqCase(r, genSeqCase(r.RNG(1, uint64(i)), i, r.N(6, 10)), dir)
+		} else if r.Child == "ovl" {
+			runOvlCase(r, genOvlCase(r.RNG(3, uint64(i)), i), dir)
 		} else {
 			runConcCase(r, genConcCase(r.RNG(2, uint64(i)), i), dir)
 		}
